@@ -24,6 +24,8 @@ def dispatch (cmd : String) (args : List String) : String :=
     | "C06" :: rest => orcC06 rest
     | "C10" :: rest => orcC10 rest
     | "C13" :: rest => orcC13 rest
+    | "C14" :: rest => orcC14 rest
+    | "C03" :: rest => orcC03 rest
     | _ => "BADORC")
   | _ => "BADCMD"
 
